@@ -29,6 +29,18 @@ package genbank
 // (a..b> for a..>b) is C02's finding three-prime-marker-placement; poly's reader
 // accepts its writer's form, so the identity clauses are not affected, and the
 // layout clause reads both notations as the same partial end (c03MarkerPlace).
+//
+// DUPLICATE FEATURES (axis and class duplicate-feature; c03DupRec,
+// c03InjectDups). A record may hold the same annotation more than once: two or
+// more features equal in key, location and qualifiers (merged annotation sets,
+// or qualifier-less features at the same place). "The same number of features
+// in the same order, nothing lost" holds for them as for any others. An
+// enumeration of its own and random records of their own (streams 12..14)
+// carry such features, adjacent and apart, through all three sources. The
+// structured sources assemble the record through AddFeature or, in these cases
+// only and in half of them, by appending to Sequence.Features directly
+// (c03Rec.Direct), so that what the writer is given does not depend on what
+// AddFeature does with a feature it has seen before.
 
 import (
 	"bytes"
@@ -128,6 +140,7 @@ type c03Rec struct {
 	OriginBlanks                bool
 	Pubmed3                     bool
 	Structured                  bool // C03: handed to Build as a struct; the writer below is not involved
+	Direct                      bool // structured only: Features assembled by append, not through AddFeature (duplicate-feature cases)
 }
 
 type c03File struct {
@@ -727,6 +740,47 @@ func c03OtherSlash(q *c03Qual, width int) bool {
 	return false
 }
 
+// c03SameFeat: the two features are the same annotation: equal key, equal
+// location (as written) and equal qualifiers (same names, values and quoting).
+func c03SameFeat(a, b *c03Feat) bool {
+	if a.Key != b.Key || len(a.Quals) != len(b.Quals) || c03LocText(a) != c03LocText(b) {
+		return false
+	}
+	qa := map[string]c03Qual{}
+	for _, q := range a.Quals {
+		qa[q.Key] = q
+	}
+	for _, q := range b.Quals {
+		if x, ok := qa[q.Key]; !ok || x != q {
+			return false
+		}
+	}
+	return true
+}
+
+// c03DupFeats: the indexes of the features of r that equal an earlier feature.
+func c03DupFeats(r *c03Rec) []int {
+	var out []int
+	for i := 1; i < len(r.Feats); i++ {
+		for j := 0; j < i; j++ {
+			if c03SameFeat(&r.Feats[i], &r.Feats[j]) {
+				out = append(out, i)
+				break
+			}
+		}
+	}
+	return out
+}
+
+func c03CloneFeat(x c03Feat) c03Feat {
+	x.Ranges = append([][2]int(nil), x.Ranges...)
+	x.BreakAfter = append([]int(nil), x.BreakAfter...)
+	x.Quals = append([]c03Qual(nil), x.Quals...)
+	x.OpCompl = append([]bool(nil), x.OpCompl...)
+	x.OpPartial = append([]int(nil), x.OpPartial...)
+	return x
+}
+
 var c03DigitWord = map[int]string{1: "one", 2: "two", 3: "three", 4: "four", 5: "five", 6: "six"}
 
 // c03Axes lists the axes leaf first, containers last.
@@ -999,6 +1053,28 @@ func c03Axes() []c03Axis {
 					f.BreakAfter = nil
 					for len(c03LocText(f)) > 58 && len(f.Ranges) > 2 {
 						f.Ranges = f.Ranges[:len(f.Ranges)-1]
+					}
+				}
+			}),
+		// two or more features equal in key, location and qualifiers; neutralised
+		// by giving every later copy a key that makes it differ from all the others
+		// (location, qualifiers, number and order of the features stay)
+		c03RecAxis("duplicate-feature",
+			func(r *c03Rec) bool { return len(c03DupFeats(r)) > 0 },
+			func(r *c03Rec) {
+				for _, i := range c03DupFeats(r) {
+					for _, k := range c03FeatKeys {
+						r.Feats[i].Key = k
+						unique := true
+						for j := range r.Feats {
+							if j != i && c03SameFeat(&r.Feats[i], &r.Feats[j]) {
+								unique = false
+								break
+							}
+						}
+						if unique {
+							break
+						}
 					}
 				}
 			}),
@@ -1585,6 +1661,90 @@ func c03ShapeRec(rng *rand.Rand, n, nFeat, nq, vshape, locLines int) c03Rec {
 	return r
 }
 
+// where the duplicate-feature enumeration puts the copies
+var c03DupPlacements = []string{"adjacent", "one-feature-between", "first-and-last", "only-features"}
+
+// c03DupRec: a record with three different features (gene, CDS, misc_feature;
+// nq plain qualifiers each, random one-line locations) in which the CDS occurs
+// `copies` times, every copy equal in key, location and qualifiers:
+//
+//	adjacent             gene CDS CDS [CDS] misc_feature
+//	one-feature-between  CDS gene CDS [misc_feature CDS]
+//	first-and-last       CDS gene misc_feature CDS, with three copies CDS CDS gene misc_feature CDS
+//	only-features        CDS CDS [CDS]
+func c03DupRec(rng *rand.Rand, n, nq, copies, placement int) c03Rec {
+	r := c03ShapeRec(rng, n, 3, nq, c03VPlain, 1)
+	g, d, m := r.Feats[0], r.Feats[1], r.Feats[2]
+	dup := func() c03Feat { return c03CloneFeat(d) }
+	var fs []c03Feat
+	switch placement {
+	case 0:
+		fs = append(fs, g)
+		for i := 0; i < copies; i++ {
+			fs = append(fs, dup())
+		}
+		fs = append(fs, m)
+	case 1:
+		fs = append(fs, dup(), g, dup())
+		if copies > 2 {
+			fs = append(fs, m, dup())
+		}
+	case 2:
+		fs = append(fs, dup())
+		if copies > 2 {
+			fs = append(fs, dup())
+		}
+		fs = append(fs, g, m, dup())
+	default:
+		for i := 0; i < copies; i++ {
+			fs = append(fs, dup())
+		}
+	}
+	r.Feats = fs
+	return r
+}
+
+// c03InjectDups copies 1..3 randomly chosen features of r (a plain one is added
+// to a record without features) once or twice each, the copy put right behind
+// the original (one time in two) or at a random place; a record that already
+// has 40 features gets the copy in place of another feature instead.
+func c03InjectDups(rng *rand.Rand, r *c03Rec) {
+	if len(r.Feats) == 0 {
+		f := c03Feat{Key: c03Pick(rng, c03FeatKeys)}
+		c03GenLoc(rng, &f, len(r.Seq), 1, 6)
+		if rng.Intn(2) == 0 {
+			f.Quals = []c03Qual{c03MakeQual(rng, "note", c03VPlain, r.Width)}
+		}
+		r.Feats = append(r.Feats, f)
+	}
+	for k, picks := 0, 1+rng.Intn(3); k < picks; k++ {
+		src := rng.Intn(len(r.Feats))
+		for c, copies := 0, 1+rng.Intn(2); c < copies; c++ {
+			cp := c03CloneFeat(r.Feats[src])
+			at := src + 1
+			if rng.Intn(2) == 0 {
+				at = rng.Intn(len(r.Feats) + 1)
+			}
+			if len(r.Feats) >= 40 {
+				if at >= len(r.Feats) {
+					at = len(r.Feats) - 1
+				}
+				if at == src {
+					continue
+				}
+				r.Feats[at] = cp
+				continue
+			}
+			r.Feats = append(r.Feats, c03Feat{})
+			copy(r.Feats[at+1:], r.Feats[at:])
+			r.Feats[at] = cp
+			if at <= src {
+				src++
+			}
+		}
+	}
+}
+
 type c03Profile struct {
 	MaxMeta     int // longest metadata text in characters
 	MaxQuals    int
@@ -2000,6 +2160,10 @@ func c03ToSeq(rec *c03Rec, cached bool) poly.Sequence {
 		}
 		if cached || !ok {
 			f.GbkLocationString = c03LocText(ft)
+		}
+		if rec.Direct {
+			s.Features = append(s.Features, f)
+			continue
 		}
 		s.AddFeature(&f)
 	}
@@ -3040,8 +3204,10 @@ func c03SetPartialShape(rng *rand.Rand, ft *c03Feat, sh *c03PartialShape, n int)
 
 func TestVerifC03(t *testing.T) {
 	nRand := 300
+	nDupRand := 45 // random records with duplicated features (streams 13, 14)
 	if verifThorough() {
 		nRand = 15000
+		nDupRand = 3000
 	}
 	tmp := t.TempDir()
 	prof := c03Profile{MaxMeta: 2000, MaxQuals: 8, MaxLen: 100000, ManyOthers: true, LongTokens: true}
@@ -3054,6 +3220,8 @@ func TestVerifC03(t *testing.T) {
 		"reference field subsets: a reference given with each of the 32 subsets of {" + strings.Join(c03RefFields, ", ") + "} (none to all five; e.g. TITLE without AUTHORS, REMARK without PUBMED), all other fields empty, as {" + strings.Join(c03RefPlaces, ", ") + "} (the other reference complete) x source {a,b,c} on a 345-letter record, with and without a COMMENT block after the references; " +
 		"partial ends on and around complemented nodes: two features with the location {" + c03PartialShapeNames() + "} x length {12,345} x 1 or 2 qualifiers x source {a,b,c} (source c = the structure alone: FivePrimePartial/ThreePrimePartial and Complement on the same node for complement(<a..b)); "
 	randDom := fmt.Sprintf("plus %d seeded-random records (sources cycling a,b,c): length 1..100000 (digit count uniform), locus name 1..40 characters (17..40 in one case of twelve), in structured records ORGANISM and/or an extra keyword text empty in up to three cases of eight, 0..40 features with 0..8 qualifiers (values over printable ASCII without the double quote, single-spaced words, up to 230 characters), 0..5 references with optional TITLE/PUBMED/REMARK, COMMENT/DBLINK/PROJECT/SEGMENT blocks, metadata texts up to 2000 characters, in one record in five one blank-free token of 69..300 characters inside one of the texts (DEFINITION, KEYWORDS, SOURCE, ORGANISM, a reference field or an extra keyword block), in one structured record in six a non-empty subset of the LOCUS columns molecule type, topology, division, date left empty; in every other random record each join gets, with probability 1/2, a random non-empty set of complemented operands; in every other triple of consecutive random records (all three sources) each reference loses each of AUTHORS, TITLE, JOURNAL, PUBMED with probability 1/4, each single span gets with probability 1/2 the markers <, > or both (also inside complement()), and each join with probability 1/2 such markers on a random non-empty set of its operands (complemented or not); every 50th random case goes through Write and Read on a temporary file; ", nRand)
+	shapeDom += "duplicate features: a record in which one feature (a CDS with a random one-line location: a..b, complement, partial, single base, join) occurs {2,3} times, every copy equal in key, location and qualifiers, with {0,1,2} qualifiers per feature (0 = identical qualifier-less features at the same place), placed {" + strings.Join(c03DupPlacements, ", ") + "} (gene CDS CDS misc_feature; CDS gene CDS misc_feature CDS; CDS gene misc_feature CDS; CDS CDS alone) x length {12,345} x source {a, b, c, and b, c with the Features slice assembled by append instead of through AddFeature}: the same number of features in the same order is demanded as for any other record (class duplicate-feature); "
+	randDom += fmt.Sprintf("plus %d seeded-random records of the same kind with lengths up to 9999 (sources cycling a,b,c; in every other triple the structured records are assembled by append instead of through AddFeature) in which 1..3 randomly chosen features are each copied once or twice, the copy equal in key, location and qualifiers and put right behind the original or at a random place (at most 40 features; a record without features gets one first); ", nDupRand)
 	runs := []*verifRun{
 		newVerifRun("C03", "io/genbank.Build/determinism", src+shapeDom+randDom+fmt.Sprintf("the same record value written %d times (64 times above 20000 letters), the first write being the first the freshly assembled record goes through, all outputs byte-identical; where they differ and the record is no longer equal to the deep copy taken before the first write the class is record-altered-by-writing; non-trivial = at least 2 Meta.Other keys, a feature with at least 2 qualifiers, or a location without cached text that has a complemented node below its top level", c03Builds)),
 		newVerifRun("C03", "io/genbank.Build/post/roundtrip-no-panic", src+shapeDom+randDom+"Build(r) and Parse(Build(r)) return without a panic; every case counts; the field clauses below are evaluated on the cases that return"),
@@ -3354,6 +3522,55 @@ func TestVerifC03(t *testing.T) {
 		f := c03File{Recs: []c03Rec{r}, FinalNL: true}
 		c03SetMode(&f, x.mode)
 		return c03Eval(fmt.Sprintf("partial-location=%s len=%d qualifiers=%d source=%s", c03PartialShapes[x.shape].name, x.n, x.nq, c03ModeNames[x.mode]), &f, "")
+	})
+	// duplicate features: the same annotation two or three times in one record
+	type dupcase struct {
+		copies, nq, placement, n, mode int
+		direct                         bool
+	}
+	var dupcases []dupcase
+	for copies := 2; copies <= 3; copies++ {
+		for nq := 0; nq <= 2; nq++ {
+			for placement := range c03DupPlacements {
+				for _, n := range []int{12, 345} {
+					for mode := 0; mode < 3; mode++ {
+						dupcases = append(dupcases, dupcase{copies, nq, placement, n, mode, false})
+						if mode != c03ModeImage {
+							dupcases = append(dupcases, dupcase{copies, nq, placement, n, mode, true})
+						}
+					}
+				}
+			}
+		}
+	}
+	c03Parallel(len(dupcases), runs, func(i int) []c03Out {
+		x := dupcases[i]
+		rng := c03Rng(12, i)
+		r := c03DupRec(rng, x.n, x.nq, x.copies, x.placement)
+		r.Direct = x.direct
+		f := c03File{Recs: []c03Rec{r}, FinalNL: true}
+		c03SetMode(&f, x.mode)
+		how := "AddFeature"
+		if x.direct {
+			how = "append"
+		}
+		if x.mode == c03ModeImage {
+			how = "Parse"
+		}
+		return c03Eval(fmt.Sprintf("duplicate-feature copies=%d qualifiers=%d placement=%s len=%d source=%s assembled-by=%s", x.copies, x.nq, c03DupPlacements[x.placement], x.n, c03ModeNames[x.mode], how), &f, "")
+	})
+	c03Parallel(nDupRand, runs, func(i int) []c03Out {
+		rng := c03Rng(13, i)
+		mode := i % 3
+		p := prof
+		p.MaxLen = 9999
+		p.AllowNoTopo = mode != c03ModeImage
+		r := c03RandRec(rng, p)
+		c03InjectDups(c03Rng(14, i), &r)
+		r.Direct = mode != c03ModeImage && (i/3)%2 == 1
+		f := c03File{Recs: []c03Rec{r}, FinalNL: true}
+		c03SetMode(&f, mode)
+		return c03Eval(fmt.Sprintf("random-with-duplicate-features#%d source=%s assembled-by-append=%v", i, c03ModeNames[mode], r.Direct), &f, "")
 	})
 	c03Parallel(nRand, runs, func(i int) []c03Out {
 		rng := c03Rng(3, i)
